@@ -1,5 +1,6 @@
 import Rdpgw.Oracle.Tunnel
 import Rdpgw.Oracle.Policy
+import Rdpgw.Oracle.Rdp
 
 /-!
 # rdpgw_oracle — line-protocol driver for the executable models
@@ -27,6 +28,10 @@ def dispatch (line : String) : String :=
     | "matchauth" => cmdMatchAuth m
     | "receive" => cmdReceive m
     | "datapkt" => cmdDataPkt m
+    | "rdp-parse" => cmdRdpParse m
+    | "rdp-marshal" => cmdRdpMarshal m
+    | "rdp-build" => cmdRdpBuild m
+    | "rdp-template" => cmdRdpTemplate m
     | "checkhost" => cmdCheckHost m
     | "installed" => cmdInstalled m
     | "clientaddr" => cmdClientAddr m
